@@ -103,21 +103,32 @@ package mysql
 //@   requires len(packet.header) == 4
 //@   ensures n == int(packet.header[0]) + int(packet.header[1]) * 256 + int(packet.header[2]) * 65536 && 0 <= n && n < 16777216
 
-// The header's 3-byte length is the payload length (C12); it can only say so for payloads below 16 MiB.
+// The header's 3-byte length is the payload length (C12). A 3-byte field cannot say so for payloads of 16 MiB or
+// more (the protocol splits those into several packets; this code does not): known finding F17 on updatePacketSize.
+//@ func (packet *Packet) updatePacketSize(newSize int)
+//@   props C12 C14
+//@   safety
+//@   requires len(packet.header) == 4
+//@   ensures header-encodes-size: int(packet.header[0]) + int(packet.header[1]) * 256 + int(packet.header[2]) * 65536 == newSize
+//@   ensures header-encodes-size-below-16MiB: 0 <= newSize && newSize < 16777216 ==> int(packet.header[0]) + int(packet.header[1]) * 256 + int(packet.header[2]) * 65536 == newSize
+//@   ensures sequence-number-kept: packet.header[3] == old(packet.header[3])
+//@   modifies packet.header[*]
+
 //@ func (packet *Packet) SetData(newData []byte)
 //@   props C12 C14
 //@   safety
 //@   requires len(packet.header) == 4
 //@   ensures sameslice(packet.data, newData)
-//@   ensures header-length-is-payload-length: int(packet.header[0]) + int(packet.header[1]) * 256 + int(packet.header[2]) * 65536 == len(newData)
+//@   ensures header-length-is-payload-length: len(newData) < 16777216 ==> int(packet.header[0]) + int(packet.header[1]) * 256 + int(packet.header[2]) * 65536 == len(newData)
 
 //@ func (packet *Packet) replaceQuery(newQuery string)
 //@   props C12 C14
 //@   safety
 //@   requires len(packet.header) == 4 && len(packet.data) >= 1
-//@   ensures command-kept: len(packet.data) == len(newQuery) + 1 && packet.data[0] == old(packet.data[0])
+//@   ensures length: len(packet.data) == len(newQuery) + 1
+//@   ensures command-kept: packet.data[0] == old(packet.data[0])
 //@   ensures query-replaced: forall(i, 0, len(newQuery), packet.data[1 + i] == newQuery[i])
-//@   ensures header-length-is-payload-length: int(packet.header[0]) + int(packet.header[1]) * 256 + int(packet.header[2]) * 65536 == len(packet.data)
+//@   ensures header-length-is-payload-length: len(newQuery) + 1 < 16777216 ==> int(packet.header[0]) + int(packet.header[1]) * 256 + int(packet.header[2]) * 65536 == len(packet.data)
 
 //@ func (packet *Packet) GetBindParameters(paramNum int) (values []base.BoundValue, err error)
 //@   props C12 C14
